@@ -1,3 +1,4 @@
+import HecsModel.Lemmas.IdLimit
 import HecsModel.Model.World
 import HecsModel.Model.Atomics
 import HecsModel.Generated.Facts
@@ -106,5 +107,39 @@ theorem reserve_positions (w : World) (hi : w.Inv) :
   ⟨World.reserveEntity_pos w,
    fun n e he => World.reserveEntities_pos w n ((World.inv_iff_good w).1 hi) e he,
    World.posId_inj w ((World.inv_iff_good w).1 hi)⟩
+
+/-! ### the end of the `u32` id space
+
+The calls refuse ("too many entities") to hand out an id ≥ 2^32 instead of wrapping around.  The judge
+runs the checked forms; whenever they answer, the answer is the unchecked call's, about which the
+theorems above speak. -/
+
+theorem reserveEntityChecked_some (w : World) (r : World × Entity) (h : w.reserveEntityChecked = some r) :
+    r = w.reserveEntity ∧ r.2.id < World.idLimit := by
+  refine ⟨World.reserveEntityChecked_some w r h, ?_⟩
+  unfold World.reserveEntityChecked at h
+  split at h
+  · rename_i hlt; cases h; exact hlt
+  · cases h
+
+/-- `reserve_entities(count)` with its iterator advanced `k` times: same world, the first `k` handles -/
+theorem reserveEntitiesPrefix_some (w : World) (count k : Nat) (r : World × List Entity)
+    (h : w.reserveEntitiesPrefix count k = some r) :
+    r.1 = (w.reserveEntities count).1 ∧ r.2 = (w.reserveEntities count).2.take k :=
+  World.reserveEntitiesPrefix_some w count k r h
+
+/-- at the boundary: one live entity, ids 1 … 2^32-2 claimed by one call; the next single reservation
+gets the last id, the one after that is refused -/
+example :
+    let w0 := (step World.new (.spawn [])).1
+    (match w0.reserveEntitiesPrefix 4294967294 2 with
+      | some (w1, es) =>
+        es == [⟨1,1⟩, ⟨2,1⟩] &&
+        (match w1.reserveEntityChecked with
+          | some (w2, e) => e == ⟨4294967295, 1⟩ && w2.reserveEntityChecked.isNone
+          | none => false)
+      | none => false) = true ∧
+    (w0.reserveEntitiesPrefix 4294967295 2).isNone = true := by
+  decide +kernel
 
 end Hecs.Props.C07
